@@ -485,7 +485,10 @@ fn login_sequences(report: &Report, o: Oracle, cl: &Classes, tier: Tier, seed: u
                     let a = refmodel::ctr_array::<32>(seed, &format!("{tag}-ga"));
                     let salt = [3u8; 32];
                     let bpub = le32_from_u64(1234567);
-                    let bk = PublicKey::from_le_bytes(bpub).unwrap();
+                    let bk = match PublicKey::from_le_bytes(bpub) {
+                        Ok(k) => k,
+                        Err(_) => continue, // a valid key refused is C04's business; this step only perturbs per-thread state
+                    };
                     let (r, _, _) = with_script(&a, || {
                         let c = SrpClientChallenge::new(ns("alice"), ns("password1"), *g, m_le, bk, salt);
                         (*c.client_public_key(), *c.client_proof())
